@@ -498,6 +498,56 @@ pub fn run(rep: &Report) {
             let cli = driver_level(&m.class) || (k + i) % (if t { 12 } else { 8 }) == 0;
             judge(rep, m, if core { Some(format!("p{}m{}", i, k)) } else { None }, cli);
         }
+        // aftermath: a context that met a program refused from inside a macro expansion and was clear()ed must still
+        // refuse the invalid programs (all derived from the same parent: the names coincide)
+        let in_macro: Vec<&Mutant> = ms.iter().filter(|m| m.class.ends_with(":in-macro") || m.class.contains("in-one-macro-use")).collect();
+        if !in_macro.is_empty() {
+            // small invalid programs that lean on names the refused program defined (and define nothing themselves)
+            let first = in_macro[rng.below(in_macro.len())];
+            let mut code_labels: Vec<String> = Vec::new();
+            let mut procs: Vec<String> = Vec::new();
+            for l in first.text.lines() {
+                let t = l.trim();
+                if let Some(rest) = t.strip_prefix("def ") {
+                    if let Some(n) = rest.split(|c: char| !(c.is_ascii_alphanumeric() || c == '_')).next() {
+                        procs.push(n.to_string());
+                    }
+                } else if let Some(p) = t.find(':') {
+                    let n = &t[..p];
+                    if !n.is_empty() && n != "start" && n.chars().all(|c| c.is_ascii_alphanumeric() || c == '_') && !t[p + 1..].trim_start().to_ascii_lowercase().starts_with("d") {
+                        code_labels.push(n.to_string());
+                    }
+                }
+            }
+            let mut targets: Vec<(String, String)> = vec![("no-start".into(), "mov ax,1\nmov bx,2\n".into()), ("no-start".into(), "begin:\nmov ax,1\n".into())];
+            if let Some(l) = code_labels.first() {
+                targets.push(("jump-undefined".into(), format!("start:\nmov ax,1\njmp {}\n", l)));
+            }
+            if let Some(p) = procs.first() {
+                targets.push(("call-unknown".into(), format!("start:\ncall {}\nmov ax,1\n", p)));
+            }
+            for (class, text) in targets.iter() {
+                // every one of them is refused on a fresh context
+                if accepted(text).is_ok() {
+                    continue;
+                }
+                let mut sess = Session::new();
+                let r0 = sess.parse(&first.text);
+                sess.clear();
+                let r1 = sess.parse(text);
+                let a = sess.finish();
+                rep.eval(1);
+                rep.count("invalid programs assembled on a context that refused another program before (after clear)", 1);
+                if r1.is_ok() && a.driver_checks().is_ok() {
+                    rep.fail(Failure {
+                        sig: format!("mutant:{}:accepted-after-refused-program", class),
+                        what: format!("C14: an invalid program ({}) is accepted on a context that met another program before and was cleared", class),
+                        witness: format!("{{\"kind\": \"src\", \"first_program\": {}, \"first_program_refused\": {}, \"source\": {}, \"mutation\": {}}}", json_str(&first.text), r0.is_err(), json_str(text), json_str(class)),
+                        core_item: if core { Some(format!("p{}|after|{}", i, class)) } else { None },
+                    });
+                }
+            }
+        }
         if i == 0 {
             rep.sample(format!("parent {:?}", par.lines.join("\n")));
             rep.sample(format!("mutant [{}] {:?}", ms[3].class, ms[3].text));
